@@ -318,3 +318,31 @@ Example ex_padded_out :
   (padded_out b (bs "rb") 1 1, padded_out b (bs "rb") 2 0, padded_out b (bs "rb") 2 1, padded_out b (bs "rb") 0 5)
   = (Some (frame (encode b (bs "rb"))), Some (frame (encode b (bs "rb"))), Some (be32 (c10_max_response + 1)), None).
 Proof. vm_compute. reflexivity. Qed.
+
+(* ---------- the exit notice: localProcess.whenDone (process.go) ----------
+   For EVERY interleaving of registrations (WdRegister k) and the exit of the process (WdExit): once the
+   exit has happened every callback has run exactly once per registration - whether it was registered
+   before or after the exit - and none is left parked; before the exit none has run.  runClient registers
+   its callback after start() returned, so the client may already be gone (proc_script_early, c10.proc
+   with early = 1; c10.whendone drives registrations and the exit on a real localProcess). *)
+Theorem exit_notice_any_order : forall acts,
+  (In WdExit acts ->
+     (forall k, wd_count k (wd_fired (wd_run acts)) = wd_regs k acts) /\ wd_waiting (wd_run acts) = []) /\
+  (~ In WdExit acts -> wd_fired (wd_run acts) = []).
+Proof. exact exit_notice_any_order_proof. Qed.
+Print Assumptions exit_notice_any_order.
+
+(* runClient's own callback: in both orders the notice is part of the schedule *)
+Theorem runner_notice_both_orders : forall early, runner_notice early = [ExitNotice].
+Proof. exact runner_notice_both_orders_proof. Qed.
+Print Assumptions runner_notice_both_orders.
+
+Example ex_wd_late_registration :
+  let s := wd_run [WdRegister 3; WdExit; WdRegister 5; WdRegister 3] in
+  (wd_exited s, wd_waiting s, wd_count 3 (wd_fired s), wd_count 5 (wd_fired s)) = (true, [], 2%nat, 1%nat).
+Proof. vm_compute. reflexivity. Qed.
+(* the client function returned before runClient registered: not running, sends refused, wait returns *)
+Example ex_proc_script_early :
+  let s := run (proc_script_early [a; b] false) in
+  (is_running s, s.(rd), s.(pending), s.(fired), s.(closed)) = (false, RDone, [], [], true).
+Proof. vm_compute. reflexivity. Qed.
